@@ -34,6 +34,17 @@ THEOREMS = [
     # the lattice-site test of conventional_to_primitive is periodic (atoms listed on far faces / in other images)
     'C04.onSite_image', 'C04.checkSites_periodic', 'C04.checkBasis_periodic', 'C04.checkSites_true',
     'C04.checkSites_same_type',
+    # round 3 (Proofs/C04_Hist.lean). names of the per-atom properties: every name of the input is carried by the copy,
+    # nothing else, in the input's order
+    'C04.copiedKeys_complete', 'C04.copiedKeys_sound', 'C04.copiedKeys_std',
+    # a re-oriented cell is fully periodic whatever the input's flags; zero multipliers and tuple ranges without 0 are
+    # refused, everything else is hi - lo > 0 replicas; a lattice site holding another type refuses the conversion
+    'C04.rotatePbc_periodic', 'C04.ofInt?_zero', 'C04.ofInt?_spec', 'C04.ofPair?_refuses', 'C04.ofPair?_accepts',
+    'C04.checkSites_refuses_mixed', 'C04.checkBasis_refuses_mixed',
+    # the object behind the call (cell + cached reciprocal vectors + atoms + flags): coherence is an invariant of every
+    # history; supersize / rotate on the object after any history = supersize / rotate of the visible state
+    'C04.coherent_fresh', 'C04.recipC_spec', 'C04.sposC_spec', 'C04.step_coherent', 'C04.run_coherent',
+    'C04.supersizeC_eq', 'C04.hist_supersize', 'C04.rotateC_eq', 'C04.hist_rotate',
 ]
 PARTIAL = {
     'normalize_after_rotate': 'the final normalize step (rebuild the box LAMMPS-compatible, flip a left-handed cell, '
@@ -317,9 +328,28 @@ def build_system(am, case):
         prop[name] = np.array(vals, dtype={'f': float, 'i': int, 's': str, 'b': bool}[kind])
     sysm = am.System(atoms=am.Atoms(prop=prop), box=am.Box(vects=case['vects'], origin=case['origin']),
                      pbc=case.get('pbc', (True, True, True)), scale=True, symbols=case.get('symbols'))
-    for op in case.get('history', []):
-        apply_op(sysm, op)
     sysm._c04 = case
+    if case.get('history'):
+        # the object-level model runs the same history from the same initial state: the cell handed to each write is what
+        # the implementation's Box holds afterwards (its setter's clean-up of tiny components included)
+        init = sys_line(sysm)
+        toks = []
+        for op in case['history']:
+            apply_op(sysm, op)
+            bx = f'{cm.frs(sysm.box.vects)} {cm.frs(sysm.box.origin)}'
+            if op[0] in ('read', 'recip', 'call-supersize', 'call-rotate'):
+                toks.append('R')
+            elif op[0] == 'rewrite-pos':
+                toks.append('W')
+            elif op[0] == 'pbc':
+                toks.append('P ' + ' '.join('1' if x else '0' for x in op[1]))
+            elif op[0] == 'strain' and op[2] == 'setter':
+                toks.append('V ' + cm.frs(sysm.box.vects))
+            elif op[0] == 'strain' and op[2] == 'box_set-cart':
+                toks.append('B ' + bx + ' 0')
+            else:       # strain / origin moves with the relative coordinates held
+                toks.append('B ' + bx + ' 1')
+        sysm._c04_trace = (init, toks)
     return sysm
 
 
@@ -692,6 +722,27 @@ def correspond(ctx):
         box, atoms = parse_result(out, e)
         impl_box = list(new.box.vects.ravel()) + list(new.box.origin)
         ok = cm.allclose(impl_box, box, rtol=1e-12, atol=1e-12) and len(atoms) == new.natoms
+        if ok and sysm._c04['history']:
+            # the object-level model (cell + cached reciprocal vectors + atoms), run through the same history from the
+            # same initial state, then supersize on the object: same visible state, same supercell
+            (ibl, ial), toks = sysm._c04_trace
+            hout = ctx.driver.ask(f"hist {e} {sysm.natoms} {ibl} {len(toks)} {' '.join(toks)} "
+                                  + ' '.join(f'{lo} {hi}' for lo, hi in ns) + ' ' + ial)
+            ctx.stats.case('supersize-history', 'hist ' + ' '.join(toks) + ' ' + line,
+                           sample={'op': 'history+supersize', 'ops': [t.split()[0] for t in toks]})
+            okh = not hout.startswith('err:')
+            if okh:
+                ht = hout.split()
+                hvis = [Fraction(x) for x in ht[:12]]
+                hbox, hatoms = parse_result(' '.join(ht[12:]), e)
+                scale_ = float(np.abs(sysm.atoms.pos).max()) + float(np.abs(sysm.box.vects).max())
+                okh = (cm.allclose(list(sysm.box.vects.ravel()) + list(sysm.box.origin), hvis, rtol=0, atol=0)
+                       and cm.allclose(impl_box, hbox, rtol=1e-12, atol=1e-12) and len(hatoms) == new.natoms
+                       and all(t == int(new.atoms.atype[k]) and cm.allclose(new.atoms.pos[k], p_, rtol=0, atol=1e-10 * scale_)
+                               and cm.allclose(payload(new, k, spec), ex, rtol=0, atol=0) for k, (t, p_, ex) in enumerate(hatoms)))
+            if not okh:
+                ctx.disagree('supersize:history', f'supersize{sizes_repr(sizes)} after the history {sysm._c04["history"]} on the '
+                             f'one object differs from the object-level model run through the same history (family {fam})', rp)
         if ok:
             for k, (t, p_, ex) in enumerate(atoms):
                 impl_ex = payload(new, k, spec)
